@@ -254,6 +254,15 @@ theorem budget_daylight_fractional {α : Type} [Field α] [LinearOrder α] [IsSt
     (w d : α) : dayBudgetG true w d = 60 * min w d ∧ dayBudgetG false w d = 60 * w :=
   dayBudgetG_eq w d
 
+/-- the day loop does not depend on the unit of time: an instance whose minutes are rationals with
+common denominator `k` is the integer instance measured in units of `1/k` minute, and measuring in a
+finer unit changes no decision and scales every time output — so `day_budget`, `day_rem_nonneg`, …
+hold for it verbatim (this is how the fractional-daylight correspondence feeds the driver) -/
+theorem day_unit_free (k : Int) (hk : 0 < k) (p : MethodP) (budget : Int) (n : Nat) (reqs : List Req) :
+    deployDay p (k * budget) n (reqs.map (scaleReq k)) = scaleDay k (deployDay p budget n reqs) ∧
+    ∀ R S T P st w, surveyStep (k * R) (k * S) (k * T) (k * P) st w = scaleOut k (surveyStep R S T P st w) :=
+  ⟨deployDay_scale k hk p budget n reqs, fun R S T P st w => surveyStep_scale k hk R S T P st w⟩
+
 /-! ### non-vacuity -/
 
 private def envOk : Envelope := { tempLo := -10, tempHi := 25, windLo := 0, windHi := 8, precipLo := 0, precipHi := 3 }
